@@ -128,6 +128,11 @@ func genItems(r *hx.Rng, n int, sc *Scenario) {
 			cmd()
 			inGroup--
 			if inGroup == 0 {
+				if r.Chance(25) {
+					// the last command of the group is one the filter removes (what an upstream instance of the tool writes
+					// at the end of each of its transactions)
+					add("flt", 0, "hset", []byte(fmt.Sprintf("redis-gunyu-checkpoint:%d", idx+1)), []byte("f"), []byte("x"))
+				}
 				add("exec", 0, "EXEC")
 			}
 			continue
